@@ -247,6 +247,17 @@ theorem vararg_marker_pos (sc : Bool) (f : FuncTy) (args : List AType) (c : Call
         obtain ⟨_, _, rfl⟩ := h
         exact hins
 
+/-- C23 `T f(...)`: a variadic function type **without named parameters** (called directly or
+through a `T (*)(...)` pointer — only the type matters): the marker is the first thing in the
+argument list, also when the list is otherwise empty. -/
+theorem vararg_marker_first (sc : Bool) (f : FuncTy) (args : List AType) (c : CallSite)
+    (hv : f.variadic = true) (hp : f.params = []) (h : emitcall sc f args = some c) :
+    ∃ cs : List Cls, cs.length = args.length ∧ c.args = none :: cs.map some := by
+  obtain ⟨cs, h1, _, h3⟩ := vararg_marker_pos sc f args c hv h
+  refine ⟨cs, h1, ?_⟩
+  rw [h3, hp]
+  simp
+
 /-- a call through a non-variadic type has no marker -/
 theorem no_marker_without_vararg (sc : Bool) (f : FuncTy) (args : List AType) (c : CallSite)
     (hv : f.variadic = false) (h : emitcall sc f args = some c) : none ∉ c.args := by
@@ -392,6 +403,12 @@ theorem param_class_correct_partial (cs : Bool) (f : FuncTy) (sg : Sig) (h : emi
       cases hr'
       exact ⟨c, rfl, class_correct cs _ _ hc hs ha⟩
 
+/-- the definition header of a variadic function is `function … $f(class %p, …, ...)`: the declared
+parameters, then the marker — `function $f(...)` when there is none -/
+theorem emitfunc_variadic (f : FuncTy) (sg : Sig) (h : emitfunc f = some sg) :
+    sg.variadic = f.variadic ∧ sg.params.length = f.params.length :=
+  ⟨(param_class_correct_partial true f sg h).1, (param_class_correct_partial true f sg h).2.1⟩
+
 /-- `va_arg(ap, T)` fetches with the class of `T` (scalar `T` only; anything else is diagnosed) -/
 theorem vaarg_class (cs : Bool) (t : AType) (b : Base) (h : vaargClass t = some b) (hs : notSubword t = true) :
     abiClass cs emittype t = some (.base b) := by
@@ -457,5 +474,11 @@ example : (argTypes true exF.adjusted true [.sc .ptr, tChar, tFloat, tShort, tLo
     (List.map fun t => (vaargClass t).map Base.toString) =
     some [some "l", some "w", some "d", some "w", some "l"] := by decide
 example : notSubword tInt' = true ∧ notSubword tChar = false ∧ notSubword tFloat = true := by decide
+-- C23 `void v(...)`: `v(d, 1)`, `v(f, s)` (promoted), `v()`; `int h(...) { … }`
+def exV : FuncTy := ⟨none, [], true⟩
+example : (emitcall true exV [tDouble, tInt']).map (fun c => c.args.map Option.isSome) = some [false, true, true] ∧
+    (emitcall true exV [tFloat, tShort]).map (fun c => c.args.map Option.isSome) = some [false, true, true] ∧
+    (emitcall true exV []).map (fun c => c.args.map Option.isSome) = some [false] := by decide
+example : (emitfunc ⟨some tInt', [], true⟩).map (fun s => (s.params.length, s.variadic)) = some (0, true) := by decide
 
 end CprocVerif.C08
